@@ -368,6 +368,54 @@ static void witnessCase(long k, int w) {
     vh::endCase();
 }
 
+// 3..5 mutually overlapping rectangles (every pair overlaps in both axes at the start, sizes and centres all
+// different so that no overlap key ties), overlap avoidance on: every shape pair of the NonOverlapConstraints item is
+// handled individually.  makeFeasible() alone (fdmf) or makeFeasible() + run() (fdmfrun); sometimes one user
+// separation among the nodes.  Runs in a forked child under the alarm like every layout scenario.
+static void overlapCase(long k, const vh::Args &a) {
+    vh::Rng r = vh::caseRng(a.seed, k);
+    Scene s;
+    unsigned n = (unsigned) r.range(3, 5);
+    double cx0 = q4(r, -50, 50), cy0 = q4(r, -50, 50);
+    for (unsigned i = 0; i < n; ++i) {
+        double w = 24 + 4 * i + q4(r, 0, 3), h = 24 + 6 * ((i * 2) % n) + q4(r, 0, 3);
+        double cx = cx0 + q4(r, -5, 5), cy = cy0 + q4(r, -5, 5);
+        RectSpec R; R.x = cx - w / 2; R.X = cx + w / 2; R.y = cy - h / 2; R.Y = cy + h / 2;
+        s.rects.push_back(R);
+    }
+    s.graphKind = "edgeless"; s.startKind = "mutual-overlap";
+    bool withRun = r.coin(1, 3);
+    if (withRun) { for (unsigned i = 1; i < n; ++i) s.edges.push_back(std::make_pair(i - 1, i)); s.graphKind = "path"; }
+    if (r.coin(1, 3)) {
+        CCSpec c; c.kind = CCSpec::SEPARATION; c.dim = (int) r.range(0, 1); c.l = 0; c.r = 1; c.gap = q4(r, 0, 40); c.eq = false; s.ccs.push_back(c);
+    }
+    unsigned iters = (unsigned) r.range(1, 6);
+    const char *algo = withRun ? "fdmfrun" : "fdmf";
+    vh::beginCase(k, withRun ? "fdmfrun-ovl" : "fdmf-ovl");
+    printScene(s);
+    printf("algo %s\noverlap 1\nnstress 0\niters %u\nlocks 0\ndesired 0\n", algo, iters);
+    vpsc::Rectangles rs = buildRects(s.rects);
+    cola::CompoundConstraints ccs = buildCCs(s.ccs, rs);
+    printOrder(ccs, true); fflush(stdout);
+    cola::EdgeLengths el; cola::UnsatisfiableConstraintInfos ux, uy; cola::TestConvergence test(1e-4, iters);
+    std::string exc;
+    {
+        cola::ConstrainedFDLayout alg(rs, s.edges, s.ideal, el, &test);
+        alg.setConstraints(ccs); alg.setUnsatisfiableConstraintInfo(&ux, &uy);
+        alg.setAvoidNodeOverlaps(true);
+        exc = runGuarded([&]() { mfArm(); alg.makeFeasible(); dumpMF(rs, ccs, ""); if (withRun) alg.run(); });
+    }
+    printOut(rs);
+    printUnsat(0, ux, ccs); printUnsat(1, uy, ccs);
+    printf("exc %s\n", oneWord(exc).c_str());
+    if (exc != "none") { vh::endCase(); _exit(0); }
+    for (auto *p : ux) delete p;
+    for (auto *p : uy) delete p;
+    for (auto *c : ccs) delete c;
+    for (auto *q : rs) delete q;
+    vh::endCase();
+}
+
 int main(int argc, char **argv) {
     vh::Args a = vh::parseArgs(argc, argv);
     bool thorough = a.tier == "thorough";
@@ -402,5 +450,17 @@ int main(int argc, char **argv) {
         if (WEXITSTATUS(st) != 0) return WEXITSTATUS(st);
     }
     for (int w = 0; w < 3; ++w, ++k) if (a.want(k)) witnessCase(k, w);
+    long novl = (thorough ? 400 : 80) * a.scale;
+    if (a.n >= 0) novl = a.n;
+    for (long i = 0; i < novl; ++i, ++k) {
+        if (!a.want(k)) continue;
+        fflush(stdout);
+        pid_t pid = fork();
+        if (pid == 0) { alarm(limit); overlapCase(k, a); fflush(stdout); exit(0); }
+        int st = 0; waitpid(pid, &st, 0);
+        if (WIFSIGNALED(st) && WTERMSIG(st) == SIGALRM) { printf("hang %u\n", limit); vh::endCase(); continue; }
+        if (WIFSIGNALED(st)) { fprintf(stderr, "child killed by signal %d in case %ld\n", WTERMSIG(st), k); return 99; }
+        if (WEXITSTATUS(st) != 0) return WEXITSTATUS(st);
+    }
     return 0;
 }
